@@ -10,18 +10,23 @@ def run(ctx):
     bad = ctx.run_tlc("MC_PamClient.tla", "MC_PamClient_bad_staleerrno.cfg", workers=1, timeout=300)
     if bad["status"] != "violation":
         ctx.inconclusive.append("wrong variant MC_PamClient_bad_staleerrno.cfg not refuted")
+    bad2 = ctx.run_tlc("MC_PamClient.tla", "MC_PamClient_bad_sigpipe.cfg", workers=1, timeout=300)
+    if bad2["status"] != "violation" or not any("PamYieldsCode" in e for e in bad2["errors"]):
+        ctx.inconclusive.append("wrong variant MC_PamClient_bad_sigpipe.cfg not refuted")
     edges = res["edges"]
     if not thorough:          # quick: every reply x cut x ending once; delays and the stale errno on a seeded third
         rng = random.Random(ctx.seed)
         edges = [e for e in edges if (e["script"]["delay"] == "none" and not e["script"]["staleErrno"]) or rng.random() < 0.25]
+        edges = [e for e in edges if e["script"]["reads"] or e["script"]["cut"] in (0, 2, 4) or rng.random() < 0.2]
     results = pamfam.run_all(ctx, edges)
     n = pamfam.judge(ctx, results)
     # several authentications in one process: an OK answer followed by every short / negative / malformed answer
     import concurrent.futures, os
     exe = pamfam.build(ctx)
     okedge = next(e for e in res["edges"] if e["success"] and e["script"]["reply"]["id"] == "OK" and e["script"]["delay"] == "none"
-                  and e["script"]["after"] == "close" and not e["script"]["staleErrno"])
-    seconds = [e for e in res["edges"] if e["script"]["delay"] == "none" and e["script"]["after"] == "close" and not e["script"]["staleErrno"]]
+                  and e["script"]["after"] == "close" and not e["script"]["staleErrno"] and e["script"]["reads"])
+    seconds = [e for e in res["edges"] if e["script"]["delay"] == "none" and e["script"]["after"] == "close" and not e["script"]["staleErrno"]
+               and e["script"]["reads"]]
     seqs = [[okedge, e] for e in seconds] + [[okedge, e, okedge] for e in seconds[::7]]
     work = os.path.join(ctx.scratch, "pamseq")
     os.makedirs(work, exist_ok=True)
@@ -32,7 +37,8 @@ def run(ctx):
     cov.update({"states": res["distinct"], "transitions": res["generated"], "traces_validated_against_impl": n,
                 "evaluations": n + nseq, "sequences_in_one_process": nseq, "distinct_nontrivial": len({json.dumps(e, sort_keys=True) for e in edges}),
                 "per_config": {"MC_PamClient_code.cfg": {"distinct": res["distinct"], "scripts": len(res["edges"])},
-                               "MC_PamClient_bad_staleerrno.cfg": {"status": bad["status"], "expected": "violation of PamTerminates"}},
+                               "MC_PamClient_bad_staleerrno.cfg": {"status": bad["status"], "expected": "violation of PamTerminates"},
+                               "MC_PamClient_bad_sigpipe.cfg": {"status": bad2["status"], "expected": "violation of PamYieldsCode"}},
                 "rule": "every server script of the PamClient model (reply x cut point x delay x close/stall x errno on entry) is played "
                         "by a scripted unix-socket server against the compiled unmodified module (ASan+UBSan), with user/password "
                         "lengths 0..5000 and option combinations rotating over the scripts"})
